@@ -3,8 +3,5 @@ import Hls.Props.C19
 #print axioms Hls.C19.kfv_distinct_example
 #print axioms Hls.C19.key_determines_bits
 #print axioms Hls.C19.f32_laws
-#print axioms Hls.C19.ivCmp_lawful
-#print axioms Hls.C19.keyFormatCmp_lawful
-#print axioms Hls.C19.kfvCmp_lawful
-#print axioms Hls.C19.decryptionKey_cmp_eq_iff
-#print axioms Hls.C19.extXKey_cmp_eq_iff
+#print axioms Hls.C19.decryptionKey_cmp_laws
+#print axioms Hls.C19.extXKey_cmp_laws
